@@ -476,6 +476,19 @@ func (p *c18Peer) settle(pred func() bool) string { // callers hold mu
 		p.logf("progress resumed after the nudge")
 		return "nudged"
 	}
+	if p.dead != nil || p.violated || p.dataFrames != frames0 {
+		return "timeout"
+	}
+	// second nudge: an empty SETTINGS frame, which changes nothing either (a sender parked with open windows that is
+	// released only by this is parked for the same reason: a wake-up it was owed never came)
+	p.logf("still no DATA at all: second nudge (empty SETTINGS)")
+	p.mu.Unlock()
+	p.writeFrame(func() error { return p.fr.WriteSettings() })
+	p.mu.Lock()
+	if p.waitFor(c18StallWatchdog, pred) && p.dataFrames != frames0 {
+		p.logf("progress resumed after the second nudge")
+		return "nudged"
+	}
 	return "timeout"
 }
 
@@ -1233,7 +1246,7 @@ func c18Flow(c *lab.Ctx) {
 		"used up the released window, staggered stream starts; then the rest is released and completion is judged. 2 of 25 cases are the " +
 		"scripted 'settings-release' (small initial window used up, then a larger INITIAL_WINDOW_SIZE is the streams' only release). " +
 		"A stall is a verdict only in this form, 3 of 3 runs: PING acknowledged (all frames processed), windows open, not one DATA frame for " +
-		"the stall watchdog, progress only after an unneeded 1-byte connection WINDOW_UPDATE; any other watchdog firing is inconclusive. The ledger is " +
+		"the stall watchdog, progress only after an unneeded 1-byte connection WINDOW_UPDATE (or, failing that, an empty SETTINGS frame); any other watchdog firing is inconclusive. The ledger is " +
 		"updated before every WINDOW_UPDATE is written. distinct = (direction, window class, frame size, #streams class, body classes, " +
 		"stream mode, settings changes, negative window seen). One stream in eight also carries a header value of up to 60000 bytes, which MOSN " +
 		"must split over CONTINUATION frames and the peer's x/net framer must read back unchanged.")
@@ -1330,7 +1343,7 @@ func c18Flow(c *lab.Ctx) {
 						how = "(signature confirmed 3 of 3 on two other cases of this run; this occurrence was not re-run)"
 					}
 					p.violate("stalled-with-open-window", how+": MOSN had processed all the peer's frames (PING acknowledged), every unfinished stream and the connection had window, "+
-						"and yet not one DATA frame arrived during the stall watchdog; sending continued only after a further 1-byte connection WINDOW_UPDATE that was not needed")
+						"and yet not one DATA frame arrived during the stall watchdog; sending continued only after a further frame that was not needed (a 1-byte connection WINDOW_UPDATE or, failing that, an empty SETTINGS frame)")
 					verdict = "violated"
 				} else {
 					verdict = fmt.Sprintf("stall ended by a nudge, reproduced only %d of 3", rep)
